@@ -123,10 +123,14 @@ class Rec:
     def reset(cls):
         cls.sig_ext = cls.ct_plugin = cls.invoke = cls.transfer = 0
         cls.global_ext = 0
+        cls.ext_top = None
 
 
 def sig_ext_plugin(tape, stack, cache):
     Rec.sig_ext += 1
+    # what the extension finds on top of the stack: it runs BEFORE the
+    # instruction takes its operands
+    Rec.ext_top = stack.deque[-1] if len(stack.deque) else None
 
 
 class ExtObject:
@@ -325,6 +329,11 @@ def probes():
     P['check_multisig_f3'] = (isa.push(sig3) + isa.push(PK)
                               + O('CHECK_MULTISIG') + b'\x03\x01\x01'
                               + out(), [b'o'], [('plugin', plug)])
+    # an instruction that FAILS (flag byte not permitted) has still been
+    # preceded by exactly one run of the extension
+    P['check_sig_fails'] = (isa.TRY(isa.push(sig + b'\x01') + isa.push(PK)
+                                    + O('CHECK_SIG') + b'\x00', b''), [],
+                            [('plugin', plug)])
     P['check_sig_verify'] = (isa.push(sig) + isa.push(PK)
                              + O('CHECK_SIG_VERIFY') + b'\x00', [],
                              [('plugin', plug)])
@@ -444,6 +453,7 @@ def spec_effect(pname, label, kw):
         e['keys'] = {b's': True}
         e['sig_ext'] = 1 if has_plugin else 0
     elif pname in ('get_message', 'check_sig', 'check_sig_verify',
+                   'check_sig_fails',
                    'check_multisig', 'check_multisig_verify',
                    'taproot_keypath', 'get_message_f3', 'check_sig_f3',
                    'check_multisig_f3', 'check_multisig_2of3',
@@ -650,6 +660,16 @@ def _judge(ctx, word, pname, keys, label, kw, top_obs, script, case):
                       'supplied objects '
                       f'{(Supplied.inv.calls, Supplied.tr.calls, EXT_OBJECT.calls)}',
                       case)
+        bad = True
+    if not bad and pname in ('check_sig', 'check_sig_verify', 'check_sig_f3',
+                             'check_sig_fails') and Rec.sig_ext \
+            and sig_ext_plugin in kw.get('plugins', {}).get(
+                'signature_extensions', ()) and Rec.ext_top != PK:
+        ctx.violation('sig-extension-ran-after-operands-were-taken', 'the '
+                      'extension did not find the key on top of the stack: '
+                      'it ran after the instruction had taken its operands '
+                      f'(probe {pname}, {label}, context {word or "top"})',
+                      case, PK.hex(), repr(Rec.ext_top)[:80])
         bad = True
     if not bad and Hook.problems:
         k, d = Hook.problems[0]
